@@ -1,6 +1,79 @@
-(* Props/Properties_C03.v - statements only; see DESIGN.md section 8 C03. *)
-From Adm Require Import Heap.Exec gen.PlansGen Heap.PlanChecks.
+(* Props/Properties_C03.v - C03: elements belong to exactly one document and references never leave it.
+   Statements only; proofs in Heap/WF.v.
 
-Theorem C03_plans_recognised : plans_problems = [] /\ add_plan_complete gen_plans = true /\ plans_typed gen_plans = true.
-Proof. exact (conj plans_recognised (conj gen_add_plan_complete gen_plans_typed)). Qed.
+   Full statement: after any sequence of successful API calls - Document::add/remove, the reference methods,
+   complementary objects, set(Id), copy, deepCopy, deepCopyTo, reassignIds, the object_creation helpers - WF holds.
+   Proved: for every history of the twelve calls of [exec] (create, Document::add/remove, add/set/remove/unset/clear of
+   all fifteen reference kinds incl. complementary objects and the stream/track protocol, set(Id), getSilent, lookup),
+   any length, any number of elements and documents, ending at the first exception: theorem named _partial because
+   the extended calls of Heap/More.v (copy, deepCopy(To), reassignIds, object_creation) are covered only by the
+   differential run.  The plans interpreted by the model are regenerated from src/document.cpp on every run. *)
+From Adm Require Import Heap.Exec gen.PlansGen Heap.PlanChecks Heap.Frame Heap.WF.
+
+Theorem C03_plans_recognised : plans_problems = [] /\ add_plan_complete gen_plans = true /\ plans_typed gen_plans = true
+  /\ remove_plan_complete gen_plans = true /\ uid_rule gen_plans = true.
+Proof. exact (conj plans_recognised (conj gen_add_plan_complete (conj gen_plans_typed (conj gen_remove_plan_complete eq_refl)))). Qed.
 Print Assumptions C03_plans_recognised.
+
+(* every state reached from the empty state by successful calls is well-formed *)
+Theorem C03_invariant_partial : forall ops s', run_succ gen_plans ops empty_state = Some s' -> WF s'.
+Proof.
+  exact (fun ops s' => wf_invariant gen_plans gen_add_plan_complete gen_remove_plan_complete gen_plans_typed eq_refl
+                                    ops empty_state s' empty_wf).
+Qed.
+Print Assumptions C03_invariant_partial.
+
+(* ... from any well-formed state, for any plans with the checked properties *)
+Theorem C03_step : forall P, add_plan_complete P = true -> remove_plan_complete P = true -> plans_typed P = true ->
+  uid_rule P = true -> forall o s s' v, WF s -> exec P o s = (s', inl v) -> WF s'.
+Proof. exact (fun P H1 H2 H3 H4 o s s' v => wf_step P H1 H2 H3 H4 o s s' v). Qed.
+Print Assumptions C03_step.
+
+(* what well-formed means: listed once; listed by a document exactly when that document is the parent (hence by no
+   other document); everything a parented element references - through any of the fifteen kinds, complementary
+   objects, stream/track back references and silent track UIDs included - has the same parent *)
+Theorem C03_meaning : forall s, WF s ->
+  (forall d k, NoDup (listed s d k)) /\
+  (forall d k h, In h (listed s d k) <-> kindof s h = Some k /\ parent s h = Some d) /\
+  (forall h d rk h', parent s h = Some d -> In h' (refs s h rk) -> parent s h' = Some d).
+Proof. exact WF_meaning. Qed.
+Print Assumptions C03_meaning.
+
+(* Document::add on a well-formed state attaches the element and everything it references *)
+Theorem C03_add_closes : forall d h s s' b, doc_add_top gen_plans d h s = (s', inl b) -> WF s ->
+  WF s' /\ parent s' h = Some d.
+Proof.
+  exact (fun d h s s' b H W =>
+    match doc_add_top_wf gen_plans gen_add_plan_complete d h s s' b H (proj1 W) (proj2 W) with
+    | conj Hi (conj Hr (conj Ph _)) => conj (conj Hi Hr) Ph end).
+Qed.
+Print Assumptions C03_add_closes.
+
+(* attaching to a second document, and linking elements of two documents, throws *)
+Theorem C03_second_document_rejected : forall P d h s e d', get_elem s h = Some e -> eparent e = Some d' -> d' <> d ->
+  doc_add_top P d h s = (s, inr OtherDoc).
+Proof. exact doc_add_second_document. Qed.
+Print Assumptions C03_second_document_rejected.
+
+Theorem C03_link_across_documents_rejected : forall P rk a b s ea eb d1 d2,
+  In rk [ProgCont; ContObj; ObjPack; PackChan] ->
+  get_elem s a = Some ea -> get_elem s b = Some eb -> ekind ea = src_kind rk -> ekind eb = dst_kind rk ->
+  eparent ea = Some d1 -> eparent eb = Some d2 -> d1 <> d2 -> add_ref P rk a b s = (s, inr OtherDoc).
+Proof. exact link_two_documents_rejected. Qed.
+Print Assumptions C03_link_across_documents_rejected.
+
+Theorem C03_set_across_documents_rejected : forall P rk a b s ea eb d1 d2,
+  In rk [StreamChan; StreamPack] ->
+  get_elem s a = Some ea -> get_elem s b = Some eb -> ekind ea = src_kind rk -> ekind eb = dst_kind rk ->
+  eparent ea = Some d1 -> eparent eb = Some d2 -> d1 <> d2 -> set_ref P rk a b s = (s, inr OtherDoc).
+Proof. exact set_two_documents_rejected. Qed.
+Print Assumptions C03_set_across_documents_rejected.
+
+(* the statements are not vacuous: a history with two documents, nested references and a removal succeeds *)
+Example C03_history_exists :
+  exists s', run_succ gen_plans
+    [ONewDoc 1; ONewDoc 2; ONew 1 KObj 0 false; ONew 2 KObj 0 false; ONew 3 KPack 3 false; ONew 4 KChan 3 false;
+     ONew 5 KStream 0 false; ONew 6 KTrack 0 false; OAddRef ObjObj 1 2; OAddRef ObjPack 2 3; OAddRef PackChan 3 4;
+     OAddRef StreamTrack 5 6; OSetRef StreamChan 5 4; OAdd 1 1; OAdd 1 5; ONew 7 KProg 0 false; OAdd 2 7; ORemove 1 2] empty_state = Some s'
+  /\ parent s' 3 = Some 1%positive /\ parent s' 6 = Some 1%positive /\ parent s' 7 = Some 2%positive /\ parent s' 2 = None /\ refs s' 1 ObjObj = [].
+Proof. eexists. vm_compute. repeat split. Qed.
